@@ -3,4 +3,4 @@
 wt="$1"; id="$2"; tier="${3:-quick}"
 cd /verif
 PYTHONPATH=$wt/src /venv/bin/python -c "import classy_blocks,sys; assert classy_blocks.__file__.startswith('$wt'), classy_blocks.__file__" || exit 2
-PYTHONPATH=$wt/src ./check "$id" --tier "$tier" 2>&1 | grep -v conda | grep -E "^(VIOLATION|HARNESS|C[0-9]+ tier)|clause=" | head -${LINES_MAX:-8}
+VERIF_EVIDENCE_DIR=/dev/shm/verif_trial_evidence PYTHONPATH=$wt/src ./check "$id" --tier "$tier" 2>&1 | grep -v conda | grep -E "^(VIOLATION|HARNESS|C[0-9]+ tier)|clause=" | head -${LINES_MAX:-8}
